@@ -133,13 +133,24 @@ def run_impl(case):
         out["B"] = fc.coo_of(s.mass)
         hh, dt, nt = _args(case)
         didx0, ddat0 = dt[0].copy(), dt[1].copy()
+        h0 = np.array(hh, copy=True) if isinstance(hh, np.ndarray) else hh
+        n0 = tuple(np.array(a, copy=True) for a in nt)
         try:
             x = s.poisson(hh, dt, nt)
             out["x"] = np.asarray(x, dtype=float).tolist()
         except Exception as e:
             out["x"] = core.errkind(e)
             out["x_msg"] = str(e)[:200]
-        out["args_untouched"] = bool(np.array_equal(dt[0], didx0) and np.array_equal(dt[1], ddat0))
+        out["args_untouched"] = bool(np.array_equal(dt[0], didx0) and np.array_equal(dt[1], ddat0)
+                                     and (not isinstance(hh, np.ndarray) or np.array_equal(hh, h0))
+                                     and all(np.array_equal(a, b) for a, b in zip(nt, n0)))
+        if not isinstance(out["x"], str):
+            # the same call again, with the very same argument objects, must give the same answer
+            try:
+                xr = s.poisson(hh, dt, nt)
+                out["repeat_err"] = float(np.abs(np.asarray(xr, dtype=float) - np.asarray(x, dtype=float)).max())
+            except Exception as e:
+                out["repeat_err"] = core.errkind(e)
         if case["bad"] is None and not isinstance(out["x"], str):
             # linearity: solve with second Dirichlet data (h = 0, n = 0) and with the combination
             c0 = dict(case, hkind="zero", h=0.0, ntup=None)
@@ -191,6 +202,8 @@ def oracle(case, out):
     if isinstance(x, str):
         bad("poisson_no_exception", x + ": " + out.get("x_msg", ""), x)
         return V
+    if "repeat_err" in out and (isinstance(out["repeat_err"], str) or out["repeat_err"] > 1e-9 * (1 + np.abs(np.array(out["x"])).max())):
+        bad("poisson_repeatable_with_the_same_arguments", f"second call differs by {out['repeat_err']}")
     if not out["args_untouched"]:
         bad("arguments_not_modified", "dtup arrays changed")
     x = np.array(x)
